@@ -796,7 +796,40 @@ def edit(rng, step, past):
     return s, kind
 
 
+FILE_EDITS = {"recipe_env", "dep_env", "dep_if", "dep_use", "dep_forward", "script", "vars", "tool_path", "class_env", "class_vars",
+              "include_file", "default_env", "opt_toggle", "opt_env", "meta", "provide_var", "dep_drop", "dep_add", "sb_env", "recipe_rm_add"}
+
+
+def gen_alternating_history(rng, length):
+    """two cache slots that share the YAML cache: the project directory is used
+    alternately with the sandbox switched on and off (separate package pickles,
+    one .bob-cache.sqlite3 / .bob-tree.sqlite3), sometimes also with and without
+    the -c file; a file edit between the rounds is first seen by one slot"""
+    st = {"desc": gen_desc(rng), "defines": [], "cfg": False, "sandbox": rng.random() < 0.5, "seed": rng.randrange(1, 100000)}
+    alt_cfg = rng.random() < 0.3
+    steps, kinds = [], []
+    cur = st
+    while len(steps) < length:
+        a = copy.deepcopy(cur)
+        b = copy.deepcopy(cur)
+        b["sandbox"] = not a["sandbox"]
+        if alt_cfg:
+            b["cfg"] = not a.get("cfg", False)
+        steps += [a, b]
+        kinds += ["alt:first-slot" if not kinds else "alt:edit+first-slot", "alt:second-slot"]
+        for _ in range(100):
+            e = edit(rng, cur, [])
+            if e is not None and e[1] in FILE_EDITS:
+                nxt = e[0]
+                nxt["sandbox"], nxt["cfg"], nxt["defines"] = cur["sandbox"], cur.get("cfg", False), cur.get("defines", [])
+                cur = nxt
+                break
+    return {"steps": steps[:length + (length % 2)], "kinds": kinds[:length + (length % 2)], "dev": rng.random() < 0.3}
+
+
 def gen_history(rng, length):
+    if rng.random() < 0.3:
+        return gen_alternating_history(rng, length)
     st = {"desc": gen_desc(rng), "defines": [], "cfg": rng.random() < 0.3, "sandbox": rng.random() < 0.4, "seed": rng.randrange(1, 100000)}
     if rng.random() < 0.4:
         st["defines"] = ["%s=%s" % (rng.choice(GVARS), rng.choice(VALS))]
